@@ -124,6 +124,12 @@ func callSSA(i *interpreter, caller *frame, callpos token.Pos, fn *ssa.Function,
 		if ext := externals[name]; ext != nil {
 			return ext(fr, args)
 		}
+		if o := fn.Origin(); o != nil && o != fn {
+			// instantiations of generic standard-library types that are modelled (atomic.Pointer[T])
+			if ext := i.shared.ext[o.String()]; ext != nil {
+				return ext(fr, args)
+			}
+		}
 		if fn.Blocks == nil {
 			if o := fn.Origin(); o != nil {
 				if ext := i.shared.ext[o.String()]; ext != nil {
